@@ -259,6 +259,50 @@ func runC18(c *fw.Ctx) {
 				return out
 			}})
 	}
+	// a banned kind "occurs" when a DIRECTIVE of that kind occurs: the same word as a parameter
+	// value, in an annotation or inside a body is not an occurrence (every kind's keyword, bare and
+	// quoted, in every value position; ban = that kind alone)
+	for _, k := range allKinds {
+		word := k
+		if k == "HTTP-response-code" {
+			word = "200"
+		}
+		for qi, q := range []string{word, "\"" + word + "\""} {
+			nodes := []*doc.Node{doc.Jsight(),
+				doc.N("INFO").WithKids(doc.N("Title", q), doc.N("Version", q)),
+				doc.N("SERVER", "@s").WithAnn(word+" server").WithKids(doc.N("BaseUrl", q)),
+				doc.N("TYPE", "@w").WithBody("{\n  \"" + word + "\": \"" + word + "\" // " + word + "\n}"),
+				doc.N("URL", "/r").WithParen().WithKids(doc.N("Protocol", "json-rpc-2.0"), doc.N("Method", q).WithAnn(word)),
+				doc.N("GET", "/w").WithKids(doc.N("Query", q).WithBody("{}"), doc.N("200", "any")),
+			}
+			// the document must not hold a directive of the kind itself
+			var keep []*doc.Node
+			for _, n := range nodes {
+				has := false
+				doc.Walk([]*doc.Node{n}, func(x *doc.Node, _ int, _ *doc.Node) {
+					if kindOf(x.Kw) == k {
+						has = true
+					}
+				})
+				if !has {
+					keep = append(keep, n)
+				}
+			}
+			r := doc.Render(keep, doc.DefaultStyle())
+			v := variant{label: fmt.Sprintf("keyword-as-value %s quoted=%d direct", k, qi), nodes: keep, proj: drv.Single(r.Text), spans: func(kind string) [][3]interface{} { return nil }}
+			var noOpt drv.Outcome
+			have := false
+			if !c.Next() {
+				continue
+			}
+			c.Describe(v.label)
+			if !have {
+				noOpt = drv.RunMem("root.jst", r.Text, drv.Options{FixedSeed: true})
+				have = true
+			}
+			judge(v, []string{k}, noOpt)
+		}
+	}
 	_ = sort.Strings
 
 	// an option is a value of the public API and may be handed to several projects: a project
